@@ -23,7 +23,26 @@ for f in sorted(os.listdir(ed)):
     if f.endswith(".go") and "__" in f:
         pkg, name = f.split("__", 1)
         rep[os.path.join(repo, pkg.replace("_", "/"), "zz_verif_" + name)] = os.path.join(ed, f)
+# rewrite seams: harness/rewrite/*.json = {"file": "<path in repo>", "subst": [[old, new, count], ...]}.  The repo file is
+# copied to build/rewrite/ with exactly these token substitutions and overlaid; a substitution whose
+# occurrence count differs fails the build (exit != 0 -> ./check exits 2: the check could not run).
+rd = os.path.join(verif, "harness", "rewrite")
+for f in sorted(os.listdir(rd)) if os.path.isdir(rd) else []:
+    if f.endswith(".json"):
+        spec = json.load(open(os.path.join(rd, f)))
+        src = open(os.path.join(repo, spec["file"])).read()
+        for old, new, cnt in spec["subst"]:
+            if src.count(old) != cnt:
+                sys.exit("rewrite %s: expected %d occurrence(s) of %r in %s" % (f, cnt, old, spec["file"]))
+            src = src.replace(old, new)
+        out = os.path.join(b, "rewrite", spec["file"].replace("/", "__"))
+        os.makedirs(os.path.dirname(out), exist_ok=True)
+        if not os.path.exists(out) or open(out).read() != src:
+            open(out, "w").write(src)
+        rep[os.path.join(repo, spec["file"])] = out
 json.dump({"Replace": rep}, open(os.path.join(b, "overlay.json"), "w"), indent=1)
 PY
 cd "$REPO"
-go build -modfile="$B/go.mod" -overlay="$B/overlay.json" -o "$B/verifh" github.com/nelhage/taktician/cmd/internal/verifh
+OUT="${VERIF_HARNESS_OUT:-$B/verifh}"
+go build -modfile="$B/go.mod" -overlay="$B/overlay.json" -o "$OUT.tmp$$" github.com/nelhage/taktician/cmd/internal/verifh
+mv -f "$OUT.tmp$$" "$OUT"
